@@ -384,8 +384,14 @@ func stressTest(t *testing.T, prop, test string) {
 	rec := vk.NewRecorder(prop, test, rule)
 	defer rec.Flush()
 	cur := os.Getenv("VERIF_REPLAY_DIR")
+	abandoned := false
 	rapid.Check(t, func(rt *rapid.T) {
 		c := genCase(rt)
+		if abandoned {
+			// an earlier round hung for a reason another property owns: its
+			// goroutines are still blocked; do not pile up more 20 s rounds
+			return
+		}
 		// leave the case on disk: a data race report or a hang kills the process
 		if cur != "" {
 			b, _ := json.Marshal(vk.ReplayFile{Property: prop, Test: test, Message: "stress round in progress when the process died (data race report or hang)", Sig: "process-died", Case: mustJSON(c)})
@@ -409,6 +415,9 @@ func stressTest(t *testing.T, prop, test string) {
 		for _, v := range vs {
 			if v.prop != prop {
 				classes = append(classes, "foreign_"+v.prop+"_"+v.sig)
+				if v.sig == "no-progress" {
+					abandoned = true
+				}
 			}
 		}
 		if c.Registrars > 0 {
